@@ -2,6 +2,7 @@
    What a proof can carry: non-interference through the process-wide grace expectation store.  Freedom from data races is
    a property of the Go runtime execution and is TESTED (race detector on concurrent real reconciles), not proved. *)
 From RV Require Import Base.Util Model.GraceMap Corr.Isolation Proofs.GraceMap.
+From RV Require Model.Expect Proofs.Expect.
 
 (* for ANY interleaving of the calls of any number of Rollouts with clock advances and process restarts: the retry answers
    one Rollout gets are exactly those it gets when only its own calls run, provided nobody else uses its keys *)
@@ -16,3 +17,18 @@ Print Assumptions C19_grace_store_non_interference.
 Theorem C19_rollout_keys_respect_equality : forall a b c x y, gkey_eqb x y = true -> rollout_keys a b c x = rollout_keys a b c y.
 Proof. exact rollout_keys_ext. Qed.
 Print Assumptions C19_rollout_keys_respect_equality.
+
+(* the creation expectations of canary-style BatchReleases (a second process-wide store): what one BatchRelease is told —
+   "you may create your canary Deployment" or "wait" — depends only on the calls made under its own key, for any
+   interleaving with the calls of any other BatchReleases *)
+Theorem C19_creation_expectations_non_interference : forall mine ops s s', s mine = s' mine ->
+  RV.Model.Expect.eanswers mine s ops = RV.Model.Expect.eanswers mine s' (filter (fun o => String.eqb (RV.Model.Expect.ekey o) mine) ops).
+Proof. exact RV.Proofs.Expect.expectations_isolated. Qed.
+Print Assumptions C19_creation_expectations_non_interference.
+
+(* and the key, namespace/name, tells BatchReleases of different namespaces apart even when they carry the same name *)
+Theorem C19_controller_key_tells_releases_apart : forall ns1 n1 ns2 n2,
+  RV.Proofs.Expect.no_slash ns1 = true -> RV.Proofs.Expect.no_slash ns2 = true ->
+  RV.Model.Expect.controller_key ns1 n1 = RV.Model.Expect.controller_key ns2 n2 -> ns1 = ns2 /\ n1 = n2.
+Proof. exact RV.Proofs.Expect.controller_key_injective. Qed.
+Print Assumptions C19_controller_key_tells_releases_apart.
